@@ -841,67 +841,105 @@ func cbkConcurrent(r *h.Report, base int, round int) {
 }
 
 // cbkConcurrentSame: "registering the same callback twice for one counter is refused" when the registrations come from
-// several goroutines at once (monitor only). Per round a fresh counter; N goroutines, released together, register
-// the SAME function (closures of one function literal: one code pointer, the identity AddResponseCallback uses) for
-// it; exactly one call may be accepted; then one matching reply arrives: exactly one invocation.
+// several goroutines at once (monitor only). Per round K fresh counters; N goroutines, released together, each
+// register the SAME function (closures of one function literal: one code pointer, the identity AddResponseCallback
+// uses) for every one of the K counters, in the same order - they contend for the registry for the whole round, every
+// counter is a fresh chance for two of them to be in the call at the same time. Per counter exactly one call may be
+// accepted; then, for a sample of the counters, one matching reply arrives: exactly one invocation each.
 func cbkConcurrentSame(r *h.Report, base int, rounds int) {
-	const n = 8
+	const n, k, sample = 8, 256, 12
 	w := newCbkWorld(true)
 	defer func() { w.close(); cbkSettle(base) }()
 	cbkSettle(base)
-	twice, invTwice := 0, 0
+	next := 1000
 	for round := 0; round < rounds; round++ {
-		ops := []string{fmt.Sprintf("concurrent-same round %d: %d goroutines register the same function for counter %d of feature 1 at once, then one reply", round, n, 100+round)}
-		ctr := model.MsgCounterType(100 + round)
-		start := make(chan struct{})
-		var wg, ready sync.WaitGroup
-		var accepted int32
+		first := next
+		next += k
+		ops := []string{fmt.Sprintf("concurrent-same round %d: %d goroutines register the same function for each of the counters %d..%d of feature 1 at once, then one reply per sampled counter", round, n, first, first+k-1)}
+		// two other functions wait for the sampled counters already (the duplicate check has something to go through)
+		for j := 0; j < k; j += k / sample {
+			_ = w.feats[1].AddResponseCallback(model.MsgCounterType(first+j), cbkMk2(w.log, 50000))
+			_ = w.feats[1].AddResponseCallback(model.MsgCounterType(first+j), cbkMk3(w.log, 50001))
+		}
+		var wg sync.WaitGroup
+		var accepted [k]int32
+		var ready, start int32
 		for g := 0; g < n; g++ {
-			id := 100000 + round*n + g
+			g := g
 			wg.Add(1)
-			ready.Add(1)
 			go func() {
 				defer wg.Done()
-				f := cbkMk1(w.log, id)
-				ready.Done()
-				<-start
-				if w.feats[1].AddResponseCallback(ctr, f) == nil {
-					atomic.AddInt32(&accepted, 1)
+				var fs [k]func(api.ResponseMessage)
+				for j := range fs {
+					fs[j] = cbkMk1(w.log, 100000+j) // the registration id names the counter
 				}
+				atomic.AddInt32(&ready, 1)
+				for i := 0; atomic.LoadInt32(&start) == 0; i++ {
+					if i > 100000 {
+						runtime.Gosched()
+						i = 0
+					}
+				}
+				for j := 0; j < k; j++ {
+					if w.feats[1].AddResponseCallback(model.MsgCounterType(first+j), fs[j]) == nil {
+						atomic.AddInt32(&accepted[j], 1)
+					}
+				}
+				_ = g
 			}()
 		}
-		ready.Wait()
-		close(start)
+		for t0 := time.Now(); atomic.LoadInt32(&ready) < n && time.Since(t0) < 2*time.Second; {
+			runtime.Gosched()
+		}
+		atomic.StoreInt32(&start, 1)
 		wg.Wait()
-		_, cmd, _ := cbkPayload(1, "reply", 9000+round, 1)
-		w.ctr++
-		w.send(1, 1, model.CmdClassifierTypeReply, w.ctr, &ctr, cbkSrc(1, 1), cmd)
+		r.Eval("concurrent-same-round", "")
+		for j := 0; j < k; j++ {
+			switch a := atomic.LoadInt32(&accepted[j]); {
+			case a == 0:
+				r.SpecFail("C14/distinct-callback-refused", ops, fmt.Sprintf("all %d registrations of a function that was registered nowhere for counter %d were refused", n, first+j))
+				return
+			case a > 1:
+				// the reply that follows shows what it means
+				ctr := model.MsgCounterType(first + j)
+				_, cmd, _ := cbkPayload(1, "reply", 9000, 1)
+				w.ctr++
+				w.send(1, 1, model.CmdClassifierTypeReply, w.ctr, &ctr, cbkSrc(1, 1), cmd)
+				cbkSettle(base)
+				inv := 0
+				for _, x := range w.log.take() {
+					if x.reg == 100000+j {
+						inv++
+					}
+				}
+				r.SpecFail("C14/same-callback-registered-twice", ops, fmt.Sprintf("%d goroutines registered the same function (one code pointer) for counter %d of one feature at the same time: %d of the calls were accepted (the statement: registering the same callback twice for one counter is refused); the one reply that followed invoked it %d times", n, ctr, a, inv))
+				return
+			}
+		}
+		for j := 0; j < k; j += k / sample {
+			ctr := model.MsgCounterType(first + j)
+			_, cmd, _ := cbkPayload(1, "reply", 9000+j, 1)
+			w.ctr++
+			w.send(1, 1, model.CmdClassifierTypeReply, w.ctr, &ctr, cbkSrc(1, 1), cmd)
+		}
 		if !cbkSettle(base) {
 			r.SpecFail("C14/callback-blocked", ops, "callbacks did not return")
 			return
 		}
-		inv := 0
+		inv := map[int]int{}
 		for _, x := range w.log.take() {
 			if x.reg >= 100000 {
-				inv++
+				inv[x.reg-100000]++ // (the two other functions are invoked as well: not counted)
 			}
 		}
-		r.Eval("concurrent-same-round", "")
-		switch {
-		case accepted == 0:
-			r.SpecFail("C14/distinct-callback-refused", ops, fmt.Sprintf("all %d registrations of a function that was registered nowhere were refused", n))
-			return
-		case accepted > 1:
-			twice++
-			r.SpecFail("C14/same-callback-registered-twice", ops, fmt.Sprintf("%d goroutines registered the same function (one code pointer) for counter %d of one feature at the same time: %d of the calls were accepted (the statement: registering the same callback twice for one counter is refused); the one reply that followed invoked it %d times", n, ctr, accepted, inv))
-			return
-		case inv != 1:
-			invTwice++
-			r.SpecFail("C14/callback-invoked-twice", ops, fmt.Sprintf("one registration accepted, one matching reply: %d invocations", inv))
-			return
+		for j := 0; j < k; j += k / sample {
+			if inv[j] != 1 {
+				r.SpecFail("C14/callback-invoked-twice", ops, fmt.Sprintf("counter %d: one registration accepted, one matching reply: %d invocations", first+j, inv[j]))
+				return
+			}
 		}
 	}
-	r.Info["concurrent-same"] = fmt.Sprintf("%d rounds of %d goroutines registering one function for one counter at once: one accepted, one invocation each", rounds, n)
+	r.Info["concurrent-same"] = fmt.Sprintf("%d rounds of %d goroutines registering one function for each of %d counters at once: one accepted per counter, one invocation per sampled counter", rounds, n, k)
 }
 
 func TestCallbacks(t *testing.T) {
@@ -940,7 +978,7 @@ func TestCallbacks(t *testing.T) {
 	info := map[string]int{}
 	if ops := h.ReplayOps("callbacks"); ops != nil {
 		if len(ops) > 0 && strings.HasPrefix(ops[0], "concurrent-same") {
-			cbkConcurrentSame(r, base, h.Scale(1500, 8000))
+			cbkConcurrentSame(r, base, h.Scale(40, 400))
 			return
 		}
 		if len(ops) > 0 && strings.HasPrefix(ops[0], "concurrent") {
@@ -1028,5 +1066,5 @@ func TestCallbacks(t *testing.T) {
 	for round := 0; round < h.Scale(60, 600); round++ {
 		cbkConcurrent(r, base, round)
 	}
-	cbkConcurrentSame(r, base, h.Scale(1500, 8000))
+	cbkConcurrentSame(r, base, h.Scale(40, 400))
 }
